@@ -62,6 +62,8 @@ def lib_function(stderr_text):
         func, path = m.group(1), os.path.realpath(m.group(2))
         if path.startswith(root + '/src/') or path.startswith(root + '/include/'):
             f = func.split('(')[0].strip()
+            if ' ' in f:
+                f = f.split(' ')[-1]  # drop a leading return type (templates are printed with it)
             return f
     return 'no-library-frame'
 
